@@ -169,12 +169,13 @@ pub fn work(prop: &dyn Property, tier: Tier, base: u64, from: u64, to: u64, step
         // exhaust the process after some ten thousand runs: close whatever is new after each plan
         let fds_before = crate::netsim::open_fds();
         if let Ok(mut g) = FATAL_CTX.lock() { *g = Some(FatalCtx::Work { id: prop.id().to_string(), tier: tier.name().to_string(), base, i, to, step, plan: plan.clone() }); }
-        let mut rep = prop.run_plan(&plan);
+        let mut rep = run_guarded(prop, &plan);
         // determinism re-check on a sample: same plan twice in this process must hash identically
         let recheck = i % 16 == 0;
         if recheck && rep.harness_error.is_none() {
-            let rep2 = prop.run_plan(&plan);
-            if rep2.trace_hash != rep.trace_hash || rep2.violations != rep.violations {
+            let rep2 = run_guarded(prop, &plan);
+            let inconclusive = rep.probes.contains_key("inconclusive_realtime_watchdog") || rep2.probes.contains_key("inconclusive_realtime_watchdog");
+            if !inconclusive && (rep2.trace_hash != rep.trace_hash || rep2.violations != rep.violations) {
                 rep.harness_error = Some(format!("nondeterministic: hash {:x} vs {:x}", rep.trace_hash, rep2.trace_hash));
             }
             rep.probes.insert("determinism_rechecks".into(), 1);
@@ -191,13 +192,29 @@ pub fn work(prop: &dyn Property, tier: Tier, base: u64, from: u64, to: u64, step
     }
 }
 
+/// Run one plan; a run that the real-time watchdog had to end (see `World::park`) is *inconclusive*: where it stood at
+/// that instant is a function of the machine's speed, not of the plan, so no verdict is drawn from it. It is counted
+/// (probe `inconclusive_realtime_watchdog`) and does not count as a nontrivial run.
+pub fn run_guarded(prop: &dyn Property, plan: &Value) -> RunReport {
+    crate::world::WATCHDOG_FIRED.store(false, std::sync::atomic::Ordering::SeqCst);
+    let mut rep = prop.run_plan(plan);
+    if crate::world::WATCHDOG_FIRED.swap(false, std::sync::atomic::Ordering::SeqCst) {
+        rep.violations.clear();
+        rep.nontrivial = false;
+        rep.trace_hash = 0;
+        rep.probes.insert("inconclusive_realtime_watchdog".into(), 1);
+        rep.summary = format!("[inconclusive: ended by the real-time watchdog] {}", rep.summary);
+    }
+    rep
+}
+
 /// `simk runplan <ID> <file>`: run one plan from a file, print its report as JSON.
 pub fn run_plan_file(prop: &dyn Property, path: &str) -> RunReport {
     let s = std::fs::read_to_string(path).expect("read plan");
     let v: Value = serde_json::from_str(&s).expect("plan json");
     let plan = v.get("plan").cloned().unwrap_or(v);
     if let Ok(mut g) = FATAL_CTX.lock() { *g = Some(FatalCtx::Single); }
-    prop.run_plan(&plan)
+    run_guarded(prop, &plan)
 }
 
 // ------------------------------------------------------------------------------------ parent side
@@ -472,7 +489,7 @@ pub fn shrink_file(prop: &dyn Property, path: &str, class: &str, key: &str, out:
     let v: Value = serde_json::from_str(&s).expect("plan json");
     let plan = v.get("plan").cloned().unwrap_or(v);
     let (min_plan, steps) = minimise(prop, plan, class, key, Duration::from_secs(180));
-    let rep = prop.run_plan(&min_plan);
+    let rep = run_guarded(prop, &min_plan);
     let file = json!({"property": prop.id(), "seed": rep.seed, "plan": min_plan, "expect": {"class": class, "key": key, "trace_hash": format!("{:016x}", rep.trace_hash)}, "detail": rep.violations.iter().find(|x| x.class == class && x.key == key).map(|x| x.detail.clone()), "shrink_steps": steps});
     std::fs::write(out, serde_json::to_vec_pretty(&file).unwrap()).expect("write");
     println!("shrunk in {steps} steps -> {out}");
@@ -482,7 +499,7 @@ pub fn shrink_file(prop: &dyn Property, path: &str, class: &str, key: &str, out:
 pub fn replay(prop: &dyn Property, path: &str) -> i32 {
     let s = std::fs::read_to_string(path).expect("read replay");
     let v: Value = serde_json::from_str(&s).expect("json");
-    let rep = prop.run_plan(&v["plan"]);
+    let rep = run_guarded(prop, &v["plan"]);
     let class = v["expect"]["class"].as_str().unwrap_or("");
     let key = v["expect"]["key"].as_str().unwrap_or("");
     let hash = v["expect"]["trace_hash"].as_str().unwrap_or("");
